@@ -534,7 +534,7 @@ func c18Complete(c *fw.Ctx) *fw.Outcome {
 			}
 			c.Count("complete_documents_checked", 1)
 			// and the way back through the file-level helpers: a document of several megabytes is read whole
-			if n == 65537 {
+			if n == 65537 || w.name == "stl" {
 				ext := map[string]string{"srt": "srt", "ssa": "ass", "stl": "stl", "ttml": "ttml", "webvtt": "vtt"}[w.name]
 				path := filepath.Join(c.TmpDir(), "big."+ext)
 				os.WriteFile(path, b.Bytes(), 0o644)
